@@ -1,82 +1,124 @@
 import Gql.Async.Monitor
 /-!
-The path-addressed operations the trace monitor applies are transitions of `Step`.
+The path-addressed operations the trace monitor applies are transitions of `Step` / `SStep`.
 -/
 namespace Gql.Async
 
-def OpSound (op : Bool → Cfg → Option Cfg) : Prop :=
-  ∀ ab f f', op ab f = some f' → ∃ l, Step ab f l f'
+def OpSound (op : Cfg → Option Cfg) : Prop :=
+  ∀ f f', op f = some f' → ∃ l, Step f l f'
 
-theorem modifyAt_sound (op : Bool → Cfg → Option Cfg) (hop : OpSound op) :
-    ∀ (f : Cfg) (ab : Bool) (p : Path) (f' : Cfg), modifyAt op ab f p = some f' → ∃ l, Step ab f l f'
-  | .nil, _, _, _, h => by simp [modifyAt] at h
-  | .cons _ _ _ _ _ _, _, [], _, h => by simp [modifyAt] at h
-  | .cons nn g res st ch rest, ab, [0], f', h => by
+theorem modifyAt_sound (op : Cfg → Option Cfg) (hop : OpSound op) :
+    ∀ (f : Cfg) (p : Path) (f' : Cfg), modifyAt op f p = some f' → ∃ l, Step f l f'
+  | .nil, _, _, h => by simp [modifyAt] at h
+  | .cons _ _ _ _ _ _, [], _, h => by simp [modifyAt] at h
+  | .cons nn g res st ch rest, [0], f', h => by
     simp only [modifyAt] at h
-    exact hop ab _ f' h
-  | .cons nn g res st ch rest, ab, 0 :: j :: p, f', h => by
+    exact hop _ f' h
+  | .cons nn g res st ch rest, 0 :: j :: p, f', h => by
     simp only [modifyAt] at h
     split at h
     · rename_i hl
-      cases hm : modifyAt op st.abandons ch (j :: p) with
+      cases hm : modifyAt op ch (j :: p) with
       | none => simp [hm] at h
       | some ch' =>
         simp [hm] at h
         subst h
-        obtain ⟨l, hs⟩ := modifyAt_sound op hop ch st.abandons (j :: p) ch' hm
-        exact ⟨l.down, Step.child ab nn g res st ch rest l ch' hl hs⟩
+        obtain ⟨l, hs⟩ := modifyAt_sound op hop ch (j :: p) ch' hm
+        exact ⟨l.down, Step.child nn g res st ch rest l ch' hl hs⟩
     · simp at h
-  | .cons nn g res st ch rest, ab, (i + 1) :: p, f', h => by
+  | .cons nn g res st ch rest, (i + 1) :: p, f', h => by
     simp only [modifyAt] at h
-    cases hm : modifyAt op ab rest (i :: p) with
+    cases hm : modifyAt op rest (i :: p) with
     | none => simp [hm] at h
     | some rest' =>
       simp [hm] at h
       subst h
-      obtain ⟨l, hs⟩ := modifyAt_sound op hop rest ab (i :: p) rest' hm
-      exact ⟨l.next, Step.sibling ab nn g res st ch rest l rest' hs⟩
+      obtain ⟨l, hs⟩ := modifyAt_sound op hop rest (i :: p) rest' hm
+      exact ⟨l.next, Step.sibling nn g res st ch rest l rest' hs⟩
 
 theorem opResolve_sound : OpSound opResolve := by
-  intro ab f f' h
+  intro f f' h
   unfold opResolve at h
   split at h
-  · simp at h; subst h; exact ⟨_, Step.resolve ab _ _ _ _ _ _⟩
+  · simp at h; subst h; exact ⟨_, Step.resolve _ _ _ _ _ _⟩
   · simp at h
 
 theorem opFire_sound : OpSound opFire := by
-  intro ab f f' h
+  intro f f' h
   unfold opFire at h
   split at h
-  · simp at h; subst h; exact ⟨_, Step.fire ab _ _ _ _ _⟩
+  · simp at h; subst h; exact ⟨_, Step.fire _ _ _ _ _⟩
   · simp at h
 
 theorem opComplete_sound : OpSound opComplete := by
-  intro ab f f' h
+  intro f f' h
   unfold opComplete at h
   split at h
   · rename_i nn g res ch rest
     split at h
-    · rename_i hf
-      simp at h; subst h; exact ⟨_, Step.fail ab nn g res ch rest hf⟩
-    · split at h
-      · rename_i v hv
-        simp at h; subst h; exact ⟨_, Step.complete ab nn g res ch rest v hv⟩
-      · simp at h
-  · simp at h
-
-theorem opCancel_sound : OpSound opCancel := by
-  intro ab f f' h
-  unfold opCancel at h
-  split at h
-  · rename_i nn g res st ch rest
-    split at h
-    · rename_i hc
-      simp at hc
-      obtain ⟨hab, hact⟩ := hc
-      subst hab
-      simp at h; subst h
-      exact ⟨_, Step.cancel nn g res st ch rest hact⟩
+    · rename_i v hv
+      simp at h; subst h; exact ⟨_, Step.complete nn g res ch rest v hv⟩
     · simp at h
   · simp at h
+
+theorem opFail_sound : OpSound opFail := by
+  intro f f' h
+  unfold opFail at h
+  split at h
+  · rename_i nn g res ch rest
+    split at h
+    · rename_i hf
+      simp at h; subst h; exact ⟨_, Step.fail nn g res ch rest hf⟩
+    · simp at h
+  · simp at h
+
+theorem opAbort_sound : OpSound opAbort := by
+  intro f f' h
+  unfold opAbort at h
+  split at h
+  · rename_i nn g ch rest
+    split at h
+    · rename_i hf
+      simp at h; subst h; exact ⟨_, Step.abort nn g ch rest hf⟩
+    · simp at h
+  · simp at h
+
+theorem opFailDone_sound : OpSound opFailDone := by
+  intro f f' h
+  unfold opFailDone at h
+  split at h
+  · rename_i nn g res ch rest
+    split at h
+    · simp at h
+    · rename_i hp
+      simp at h; subst h; exact ⟨_, Step.failDone nn g res ch rest (by simpa using hp)⟩
+  · simp at h
+
+theorem opUnwound_sound : OpSound opUnwound := by
+  intro f f' h
+  unfold opUnwound at h
+  split at h
+  · rename_i nn g res ch rest
+    split at h
+    · simp at h
+    · rename_i hp
+      simp at h; subst h; exact ⟨_, Step.unwound nn g res ch rest (by simpa using hp)⟩
+  · simp at h
+
+/-- The serial root's `start` move of the monitor (applied to the root wrapper, whose children
+are the root fields) is the `start` transition of `SStep` on the root fields. -/
+theorem opStartSerial_sound (j : Nat) (nn : Bool) (g : Nat) (res : Res) (ch rest : Cfg) (c' : Cfg)
+    (h : opStartSerial j (.cons nn g res .run ch rest) = some c') :
+    ∃ ch', c' = .cons nn g res .run ch' rest ∧ SStep ch (.start [j]) ch' := by
+  simp only [opStartSerial] at h
+  by_cases hc : (prefixDone ch && hasIdle ch && firstIdle ch == j) = true
+  · rw [if_pos hc] at h
+    simp at hc h
+    obtain ⟨⟨hp, hi⟩, hj⟩ := hc
+    subst h
+    subst hj
+    exact ⟨startNext ch, rfl, SStep.start ch hp hi⟩
+  · rw [if_neg hc] at h
+    simp at h
 
 end Gql.Async
